@@ -162,7 +162,7 @@ def report(ctx, key: str, observed: dict, what: str, replay, cap: int = 4) -> No
     if ctx.match_known(observed) is None:
         caps = ctx.__dict__.setdefault("_c05_caps", {})
         caps[key] = caps.get(key, 0) + 1
-        if caps[key] > cap:
+        if caps[key] > cap and not os.environ.get("C05_NOCAP"):
             ctx.coverage["violations_not_printed (cap per class)"] = ctx.coverage.get("violations_not_printed (cap per class)", 0) + 1
             return
     ctx.report(observed, what, replay)
